@@ -232,12 +232,19 @@ fn sender_task<S: Snd>(s: S, mode: String) {
 fn receiver_task<R: Rcv>(r: R, prog: Vec<String>) {
     let mut r = Some(r);
     let mut polls = 0u32;
+    // the waker of the previous poll: "repoll" polls again with the SAME waker (will_wake() is true), "poll" with a new one
+    let mut last: Option<Waker> = None;
     for op in prog {
         let Some(mut rc) = r.take() else { break };
         match op.as_str() {
-            "poll" => {
-                polls += 1;
-                let w = make_waker(polls);
+            "poll" | "repoll" => {
+                let w = match (op.as_str(), last.take()) {
+                    ("repoll", Some(w)) => w,
+                    _ => {
+                        polls += 1;
+                        make_waker(polls)
+                    }
+                };
                 sched::emit(json!({"ev":"inv","side":"R","op":"poll","w":polls}));
                 let mut cx = Context::from_waker(&w);
                 let res = Pin::new(&mut rc).poll(&mut cx);
@@ -256,6 +263,7 @@ fn receiver_task<R: Rcv>(r: R, prog: Vec<String>) {
                         drop(rc);
                     }
                 }
+                last = Some(w);
             }
             "is_ready" => {
                 sched::emit(json!({"ev":"inv","side":"R","op":"is_ready","w":0}));
